@@ -648,6 +648,47 @@ static void run1(Slot<T> &s, const Label &lb, Result &r) {
     });
   } else if (op == "dropNode") {
     guarded(lb, r, [&] { s.node.reset(); });
+  } else if (op == "nodeSetValue") {
+    if (s.node && !s.node->empty()) {
+      tmp.emplace(lb.v);
+      guarded(lb, r, [&] { s.node->value() = std::move(*tmp); });
+    } else {
+      r.unsupported();
+    }
+  } else if (op == "nodeValue") {
+    if (s.node && !s.node->empty()) {
+      const auto &cn = *s.node;
+      guarded(lb, r, [&] { r.val(valOf(cn.value())); });
+    } else {
+      r.unsupported();
+    }
+  } else if (op == "eraseIf") {
+#if __cplusplus >= 202002L
+    guarded(lb, r, [&] { r.val(static_cast<long>(erase_if(v, [&](const E &e) { return valOf(e) % 2 == lb.n; }))); });
+#else
+    r.unsupported();
+#endif
+  } else if (op == "front" || op == "back" || op == "index" || op == "at" || op == "reserve" || op == "shrinkToFit") {
+    if constexpr (STraits<T>::flat) {
+      using SZ = typename T::size_type;
+      if (op == "front")
+        guarded(lb, r, [&] { r.val(valOf(cv.front())); });
+      else if (op == "back")
+        guarded(lb, r, [&] { r.val(valOf(cv.back())); });
+      else if (op == "index")
+        guarded(lb, r, [&] { r.val(valOf(cv[static_cast<SZ>(lb.h)]) + (cv.data() + lb.h == &cv[static_cast<SZ>(lb.h)] ? 0 : 1000)); });
+      else if (op == "at")
+        guarded(lb, r, [&] { r.val(valOf(cv.at(static_cast<SZ>(lb.h)))); });
+      else if (op == "reserve")
+        guarded(lb, r, [&] {
+          v.reserve(static_cast<SZ>(lb.n));
+          if (cv.capacity() < static_cast<SZ>(lb.n)) r.val(-1);
+        });
+      else
+        guarded(lb, r, [&] { v.shrink_to_fit(); });
+    } else {
+      r.unsupported();
+    }
   } else {
     r.unsupported();
   }
@@ -798,6 +839,7 @@ long g_h0 = 0, g_h1 = 0;
 static bool isConstOp(const std::string &op) {
   return op == "find" || op == "contains" || op == "count" || op == "lowerBound" || op == "upperBound" || op == "equalRange" ||
          op == "findK" || op == "containsK" || op == "countK" || op == "lowerBoundK" || op == "upperBoundK" || op == "iterate" ||
+         op == "front" || op == "back" || op == "index" || op == "at" ||
          op == "lowerBoundC" || op == "upperBoundC" || op == "countC" || op == "containsC" ||
          op == "eq" || op == "ne" || op == "lt" || op == "le" || op == "gt" || op == "ge" || op == "ctorCopy" || op == "assignCopy";
 }
@@ -832,12 +874,13 @@ static void execute(const Label &lb) {
   bool cop = isConstOp(lb.op) && lb.c >= 1 && lb.c <= K && lb.d >= 0 && lb.d <= K && !(lb.op == "assignCopy" && lb.c == lb.d);
   g_h0 = cop ? hashConstOperands(lb) : 0;
   Label lbx = lb;  // the pool has one node handle: insert(node) takes it from whichever slot holds it
-  if ((lb.op == "insertNode" || lb.op == "insertNodeHint" || lb.op == "dropNode") && lb.d == 0)
+  const bool nodeOp = lb.op == "dropNode" || lb.op == "nodeSetValue" || lb.op == "nodeValue";
+  if ((lb.op == "insertNode" || lb.op == "insertNodeHint" || nodeOp) && lb.d == 0)
     for (int c = 1; c <= K; ++c)
       if (hasNode(c)) lbx.d = c;
   if (lb.c < 1 || lb.c > K || (lb.d != 0 && (lb.d < 1 || lb.d > K))) {
     r.unsupported();
-  } else if (lb.op == "dropNode") {
+  } else if (nodeOp) {
     visit(lbx.d ? lbx.d : lb.c, [&](auto &s) { run1(s, lb, r); });
   } else if (isCtor) {
     if (exists(lb.c) || (lb.d != 0 && !exists(lb.d))) {
